@@ -25,6 +25,9 @@ CHECKS = {
  "C11": dict(technique="bounded-exhaustive enumeration of programs x layouts x formatting options through the real formatting handler; relational oracles (format twice, format two layouts, option independence) and reference nesting levels by construction",
    text="for every generated program: second formatting returns null, all 6 layouts format to one text, each line is indented k units of the requested unit with k = reference nesting level of its first token, output modulo indentation is option independent, null exactly when unchanged",
    note="nesting levels by construction from the generator; else-if chains stay on the level of the first if", ref="4/C11"),
+ "C12": dict(technique="bounded-exhaustive enumeration of well-typed programs x layouts x identifier occurrences x cursor columns through the real goto handlers; expected targets from reference scoping rules on the generating tree",
+   text="for every identifier occurrence and every column inside it, in every declaration order of the binding scenarios (shadowing, alias types, anonymous array types, builtins) and every error-free member of the expression/statement/type families: declaration/definition/implementation/typeDefinition return exactly the range of the bound declaring name or null; null on non-identifiers and white space",
+   note="bindings from refsem.rs (independent scoping / name-equivalence implementation); in-process server loop", ref="4/C12"),
  "C17": dict(technique="bounded-exhaustive enumeration of programs x layouts x comment placements through the real foldingRange handler; expected folds by construction",
    text="one fold per procedure, in source order, from the line of `proc` to the line of its last token for every generated program x layout x comment-gap variant; well-formedness (start<=end, inside document, non-overlapping) for every token soup up to 3/4 tokens",
    note="line numbers from the independent text model lsptext.rs", ref="4/C17"),
